@@ -402,7 +402,7 @@ func c28ArithProgram(r *Rand, ord int) string {
 func c28NamerefSeq(r *Rand) string {
 	var sb strings.Builder
 	v := "a"
-	switch r.Intn(14) {
+	switch r.Intn(15) {
 	case 0:
 		sb.WriteString("declare -n a=a\n")
 	case 1:
@@ -431,8 +431,10 @@ func c28NamerefSeq(r *Rand) string {
 		fmt.Fprintf(&sb, "for ((i=0; i<%d; i++)); do declare -n n$i=n$((i+1)); done\n", k)
 		sb.WriteString(r.Pick([]string{"", fmt.Sprintf("n%d=(1 2)\n", k), fmt.Sprintf("declare -n n%d=n0\n", k)}))
 	case 12:
-		sb.WriteString("f() { local -n r=$1; " + r.Pick([]string{"r+=(1 2)", "r=(1)", "r[2]=x", "r=5", "echo \"${r[@]}\" ${!r}", "unset r", "read -a r <<<'p q'", "local -n s=r; s+=(3)"}) + "; }\ndeclare -n p=q q=p\nf " + r.Pick([]string{"p", "q", "r", "nosuch", "f", "1x"}) + "\n") // never '': open finding C28-nameref-empty-append
+		sb.WriteString("f() { local -n r=$1; " + r.Pick([]string{"r+=(1 2)", "r=(1)", "r[2]=x", "r=5", "echo \"${r[@]}\" ${!r}", "unset r", "read -a r <<<'p q'", "local -n s=r; s+=(3)"}) + "; }\ndeclare -n p=q q=p\nf " + r.Pick([]string{"p", "q", "r", "nosuch", "f", "''", "1x"}) + "\n")
 		v = "p"
+	case 13:
+		sb.WriteString(r.Pick([]string{"declare -n a=", "declare -n b=; declare -n a=b", "declare -n a=''; declare -n c=a"}) + "\n") // empty targets
 	default:
 		sb.WriteString("declare -n a; declare -n b=a; a=b\n")
 	}
@@ -1187,7 +1189,7 @@ func c28Search(c *Ctx, base string, corpus []string) {
 		tags := append([]string{}, it.tags...)
 		tags = append(tags, "result:"+res.kind)
 		if res.kind == "panic" {
-			id := c28Classify(res.msg, res.frames, res.note)
+			id := c28Classify(res.msg, res.frames)
 			what := fmt.Sprintf("Runner.Run panicked: %s [%s]", res.msg, res.frames)
 			switch {
 			case it.known:
